@@ -33,17 +33,21 @@ def plan(tier, seed):
     return [{"n": N[tier], "k0": i * N[tier]} for i in range(16)] + [{"kind": "threads", "n": 40, "k": k} for k in range(4 if tier == "quick" else 16)]
 
 
-def build(position: str, dt12: bytes, rng, spec=None):
-    """(vendor, form, message bytes)"""
-    other12, _ = dlms_gen.gen_datetime(rng)
+def _build(position: str, dt12: bytes, rng, spec, holder: dict):
+    """(vendor, form, message bytes); holder["inner_spec"] = the list's own clock element as the bare body must report it (None: the list has none)"""
+    other12, other_spec = dlms_gen.gen_datetime(rng)
+    tags: list = []
+    holder["inner_spec"] = spec
     if position.endswith("kaifa_frame"):
         body = ce.kaifa_value_body([ce.u32(rng.randrange(2**32))])
+        holder["inner_spec"] = None
         return "kaifa", "frame", ce.apdu(body, dt12, tagged=position.startswith("apdu_tagged"))
     if position.endswith("kamstrup_frame"):
-        body = ce.kamstrup_body("Kamstrup_V0001", [((1, 1, 1, 7, 0, 255), ce.u32(rng.randrange(2**32))), ((0, 1, 1, 0, 0, 255), ce.datetime_octets(other12))])
+        body = ce.kamstrup_body("Kamstrup_V0001", [((1, 1, 1, 7, 0, 255), ce.u32(rng.randrange(2**32))), (dlms_gen.clock_code(rng, (0, 1, 1, 0, 0, 255), tags), ce.datetime_octets(other12))])
+        holder["inner_spec"] = other_spec
         return "kamstrup", "frame", ce.apdu(body, dt12, tagged=position.startswith("apdu_tagged"), invoke=b"\x00\x00\x00\x00")
     if position == "aidon_clock_element":
-        body = ce.aidon_body([ce.aidon_element((0, 0, 1, 0, 0, 255), "datetime", dt12), ce.aidon_element((1, 0, 1, 7, 0, 255), "u32", 5, 0, ce.UNIT_W)])
+        body = ce.aidon_body([ce.aidon_element(dlms_gen.clock_code(rng, (0, 0, 1, 0, 0, 255), tags), "datetime", dt12), ce.aidon_element((1, 0, 1, 7, 0, 255), "u32", 5, 0, ce.UNIT_W)])
         if rng.random() < 0.5:
             return "aidon", "body", body
         return "aidon", "frame", ce.apdu(body, rng.choice((None, other12)), tagged=rng.random() < 0.5)
@@ -68,18 +72,25 @@ def build(position: str, dt12: bytes, rng, spec=None):
                 other12 = alt[0]
         return "kaifa", "frame", ce.apdu(body, other12, tagged=rng.random() < 0.5)
     if position == "kaifa_se_clock_element":
-        body = ce.kaifa_obis_body([((1, 0, 1, 7, 0, 255), ce.u32(7)), ((0, 0, 1, 0, 0, 255), ce.datetime_octets(dt12))])
+        body = ce.kaifa_obis_body([((1, 0, 1, 7, 0, 255), ce.u32(7)), (dlms_gen.clock_code(rng, (0, 0, 1, 0, 0, 255), tags), ce.datetime_octets(dt12))])
         if rng.random() < 0.5:
             return "kaifa", "body", body
         return "kaifa", "frame", ce.apdu(body, rng.choice((None, other12)), tagged=rng.random() < 0.5)
-    body = ce.kamstrup_body("Kamstrup_V0001", [((0, 1, 1, 0, 0, 255), ce.datetime_octets(dt12)), ((1, 1, 1, 8, 0, 255), ce.u32(9))], [0, rng.choice((0, 0, 3)), 0])
+    body = ce.kamstrup_body("Kamstrup_V0001", [(dlms_gen.clock_code(rng, (0, 1, 1, 0, 0, 255), tags), ce.datetime_octets(dt12)), ((1, 1, 1, 8, 0, 255), ce.u32(9))], [0, rng.choice((0, 0, 3)), 0])
     return "kamstrup", "body", body
+
+
+def build(position: str, dt12: bytes, rng, spec=None):
+    """(vendor, form, message bytes, spec of the list's own clock element or None)"""
+    holder: dict = {}
+    vendor, form, msg = _build(position, dt12, rng, spec, holder)
+    return vendor, form, msg, holder.get("inner_spec")
 
 
 def check(position, dt12, spec, rng, ctx) -> None:
     import importlib
 
-    vendor, form, msg = build(position, dt12, rng, spec)
+    vendor, form, msg, inner_spec = build(position, dt12, rng, spec)
     mod = importlib.import_module(f"han.{vendor}")
     fn = mod.decode_notification_body if form == "body" else mod.decode_frame_content
     case = {"position": position, "dt12": dt12, "spec": spec, "vendor": vendor, "form": form, "message": msg}
@@ -95,6 +106,24 @@ def check(position, dt12, spec, rng, ctx) -> None:
     if problem:
         what = "offset" if "utcoffset" in problem or "tzinfo" in problem else "civil-fields"
         ctx.violation(f"C10:{position}:{what}", f"date-time {dt12.hex()} at {position}: {problem}", case)
+    if form == "frame" and all(hasattr(mod, n) for n in ("LlcPdu", "normalize_parsed_frame", "normalize_parsed_notification")):
+        # the public two-step API: one parsed object, normalised as a frame, then its notification body on its own, then as a frame again
+        try:
+            parsed = mod.LlcPdu.parse(msg)
+            first = mod.normalize_parsed_frame(parsed)
+            inner = mod.normalize_parsed_notification(parsed.information.notification_body)
+            again = mod.normalize_parsed_frame(parsed)
+        except Exception as ex:
+            ctx.violation(f"C10:{position}:two-step:exception:{p1_mon.where(ex)}", f"date-time {dt12.hex()} at {position}: parse + normalise raised {ex!r:.160}", case)
+            return
+        ctx.count("two_step_normalisations")
+        for label, res, want in (("frame", first, spec), ("frame-again", again, spec), ("notification-of-the-parsed-frame", inner, inner_spec)):
+            if want is None:
+                continue
+            p2 = "no meter_datetime" if "meter_datetime" not in res else dlms_gen.check_datetime(res["meter_datetime"], want)
+            if p2:
+                ctx.violation(f"C10:{position}:two-step:{label}", f"date-time {dt12.hex()} at {position}, normalising one parsed object ({label}): {p2}", case)
+                break
 
 
 def run_threads(shard, ctx) -> None:
